@@ -362,6 +362,8 @@ impl Parse for ConversionsAttribute {
                 if !convs.tys.empty_or_trailing() {
                     convs.tys.push_punct(comma);
                 }
+            } else if !input.is_empty() {
+                return Err(input.error("expected `,`"));
             }
 
             Ok(())
@@ -399,6 +401,8 @@ impl Parse for ConversionsAttribute {
 
                     if input.peek(token::Comma) {
                         out.owned.tys.push_punct(input.parse::<token::Comma>()?)
+                    } else if !input.is_empty() {
+                        return Err(input.error("expected `,`"));
                     }
                 }
             }
